@@ -82,8 +82,8 @@ namespace adept {
       // numbers.
       void push_lhs_range(const uIndex& first, const uIndex& n, 
 			  const uIndex& stride = 1) {
-	uIndex last_plus_1 = first+n*stride;
-	for (uIndex i = first; i != last_plus_1; i += stride) {
+	uIndex i = first;
+	for (uIndex k = 0; k < n; ++k, i += stride) {
 	  statement_.push_back(Statement(i, n_operations_));
 	}
 	n_statements_ += n;
